@@ -17,6 +17,12 @@ def pushHdr (whens : Nat) (iffs : List String) (status : Nat) : PNode → Except
     .ok (.node { p with whens := p.whens + whens, iffs := p.iffs ++ iffs, status := s } kids)
   | n => .ok n
 
+/-- the shorthand case made explicit: a case named after its only child, with the child's status (which
+`lys_compile_node_choice_child` copies) -/
+def wrapCase : PNode → PNode
+  | .node p kids => if p.kind == .case then .node p kids else .node { kind := .case, name := p.name, status := p.status } [.node p kids]
+  | n => n
+
 /-- change the node at a relative path -/
 def modifyAt (f : Props → Except Err Props) : Nat → List String → List PNode → Except Err (List PNode)
   | 0, _, _ => .error .fuel
@@ -50,7 +56,7 @@ def expandNode (sch : Schema) : Nat → List String → PNode → Except Err (Li
   | 0, _, _ => .error .fuel
   | fuel + 1, stack, .node p kids => do
     let k ← expandNodes sch fuel stack kids
-    .ok [.node p k]
+    .ok [.node p (if p.kind == .choice then k.map wrapCase else k)]
   | fuel + 1, stack, .uses u augs =>
     match sch.groupings.find? (·.1 == u.grouping) with
     | none => .error .fail
@@ -75,7 +81,9 @@ def expandAugs (sch : Schema) : Nat → List String → List PAug → List PNode
     let k ← expandNodes sch fuel stack kids
     let b ← insertAt (fun tk =>
       -- into a choice: the shorthand stays a shorthand (the header goes to the node, `compile` wraps it)
-      if tk == .leaf || tk == .leaflist then .error .fail else k.mapM (pushHdr h.whens h.iffs h.status)) 1000 (h.path.map (·.2)) b
+      if tk == .leaf || tk == .leaflist then .error .fail
+      else if tk == .choice then (k.map wrapCase).mapM (pushHdr h.whens h.iffs 0)
+      else k.mapM (pushHdr h.whens h.iffs h.status)) 1000 (h.path.map (·.2)) b
     expandAugs sch fuel stack rest b
 end
 
@@ -88,6 +96,7 @@ def expand (_cfg : Cfg) (sch : Schema) (_order : List String) : Except Err Schem
       let k ← expandNodes sch fuel [] kids
       pure (h, k)
     pure { m with data := data, augments := augs }
-  .ok { sch with groupings := [], mods := mods }
+  -- the groupings stay (nobody uses them any more): `lys_compile` validates unused groupings, so an invalid one still fails
+  .ok { sch with mods := mods }
 
 end LyModel.Compile
